@@ -31,6 +31,7 @@ func (c *Ctx) Bounds() engine.Bounds {
 type OpFilter struct {
 	Methods []string                                  // public operations to instantiate ("" = all)
 	Keep    func(rule, construct string) bool         // which obligations count for this property
+	KeepF   func(f engine.Finding) bool               // optional finer filter on findings
 }
 
 func hasPrefixAny(s string, ps ...string) bool {
@@ -81,7 +82,14 @@ func RunOps(c *Ctx, f OpFilter) *engine.OpEngine {
 func fileOps(c *Ctx, e *engine.OpEngine, f OpFilter) {
 	bad := map[string]bool{}
 	for _, fd := range e.Findings {
-		if f.Keep != nil && !f.Keep(fd.Rule, fd.Construct) {
+		keep := f.Keep == nil || f.Keep(fd.Rule, fd.Construct)
+		if f.KeepF != nil && f.KeepF(fd) {
+			keep = true
+		}
+		if fd.Undecided && fd.Rule == "interp" {
+			keep = true // code outside the analysed fragment is never silently skipped
+		}
+		if !keep {
 			continue
 		}
 		bad[fd.Rule+"|"+fd.Construct] = true
